@@ -129,6 +129,8 @@ class SnapshotActionContext(FrameCollectorContext, ActionContext):
             }, LocationAction.ActionType.Log))
             # the log fields are part of this snapshot, so they share its variable ids
             context.var_cache = self.var_cache
+            # the cache is shared, so the values it identifies by id() have to stay alive as long as this action
+            context._evaluated = self._evaluated
             context._collection_config = self.collection_config
             log, watches, log_vars = context.process_log(log_msg)
             snapshot.log_msg = log
